@@ -213,3 +213,30 @@ def factory_cases(tier, rng):
 def c14_stages(tier, rng):
     return [Stage("beyond_algorithm_factory", "Trace_Extras", extrarun.run_factory, lambda: factory_cases(tier, rng),
                   lambda r: True, extrarun.init)]
+
+
+def bench_cases(tier, rng):
+    import itertools
+    out = []
+    c = 0
+    for ln in range(0, 5):
+        for d in itertools.product((0, 1, 2, 5), repeat=ln):
+            for lb in (-1, 0, 1, 3, 8):
+                out.append({"d": list(d), "lb": lb, "alg": c, "flag": c % 2, "default_lb": 1 if lb == 8 and c % 3 == 0 else 0})
+                c += 1
+    for _ in range(100 if tier == "quick" else 2000):
+        d = [rng.choice([0, 1, 3, 4, 9, 17]) for _ in range(rng.randint(0, 12))]
+        out.append({"d": d, "lb": rng.randint(-2, 30), "alg": c, "flag": c % 2, "default_lb": 0})
+        c += 1
+    return out
+
+
+def bench_models(tier):
+    return [Model("MC_Bench", "MC_Bench.cfg", "beyond the listed properties: the loop of bench_time_consensus over every "
+                  "clock script of <= 4 durations in {0,1,2,5} and 5 bounds: stops at the first moment the accumulated time "
+                  "exceeds the bound, no computation exactly for a negative bound, terminates")]
+
+
+def c03_stages(tier, rng):
+    return [Stage("beyond_bench_time", "Trace_Extras", extrarun.run_bench, lambda: bench_cases(tier, rng),
+                  lambda r: len(r["d"]) >= 2 and r["out"] == "ok", extrarun.init)]
